@@ -888,6 +888,14 @@ def r12_id_lookups_use_equality(ctx, res):
         raise AnalysisError(f'only {n} writing statement variants found in wn/_add.py')
 
 
+def r13_metadata_tables(ctx, res):
+    """every metadata attribute of the document reaches the database: the reader's attribute table (_DC_ATTRS / _NS_ATTRS), the
+    Metadata model and the keys the writer emits are the same set (analysis of C02-R4) - an attribute missing from the reader's
+    table is silently never stored."""
+    from .c02 import r4_metadata_tables
+    r4_metadata_tables(ctx, res)
+
+
 RULES = [
     ('C01-R1', r1_compile_arity, 150),
     ('C01-R2', r2_bindings, 200),
@@ -901,4 +909,5 @@ RULES = [
     ('C01-R10', r10_exactly_once, 20),
     ('C01-R11', r11_reader_text, 3),
     ('C01-R12', r12_id_lookups_use_equality, 30),
+    ('C01-R13', r13_metadata_tables, 3),
 ]
